@@ -265,3 +265,33 @@ def hexs(b):
 
 def unhexs(s):
     return b'' if s == '-' else bytes.fromhex(s)
+
+
+_regex_exe = None
+
+
+def regex_oracle():
+    """Build (once) the platform regcomp/regexec helper; independent of /repo."""
+    global _regex_exe
+    if _regex_exe is None:
+        d = mktemp('mdv-rx-')
+        exe = os.path.join(d, 'regex_drv')
+        sh(['cc', '-O1', '-I', os.path.join(VERIF, 'cdrv'), '-o', exe, os.path.join(VERIF, 'cdrv', 'regex_drv.c')], check=True)
+        _regex_exe = exe
+    return _regex_exe
+
+
+def regex_eval(queries):
+    """queries: list of (icase, pattern bytes, subject bytes) -> list of None | [(so, eo), ...] | 'E'"""
+    lines = ['rx %d %s %s' % (1 if ic else 0, hexs(p), hexs(s)) for ic, p, s in queries]
+    out, _ = run_lines(regex_oracle(), lines)
+    res = []
+    for o in out:
+        if o == 'N':
+            res.append(None)
+        elif o.startswith('M'):
+            nums = [int(x) for x in o.split()[1:]]
+            res.append(list(zip(nums[0::2], nums[1::2])))
+        else:
+            res.append('E')
+    return res
